@@ -431,6 +431,92 @@ void BuildModule(py::module_& mod) {  // NOLINT[runtime/references]
         INTERNAL_ERROR("`PyType_Ready(&PyTreeIter_Type)` failed.");
     }
 
+#ifdef OPTREE_VERIF_HOOKS
+    {
+        // Verification build only: read-only views of engine state plus the lock-seam hook.
+        namespace verif = ::optree_verif;
+        auto vmod = mod.def_submodule("_verif", "Verification hooks (simulation builds only).");
+        vmod.def("set_hook", [](const py::object& hook) -> void {
+            auto& state = verif::GetState();
+            Py_XDECREF(state.hook);
+            state.hook = nullptr;
+            if (!hook.is_none()) {
+                state.hook = hook.inc_ref().ptr();
+            }
+        });
+        vmod.def("locks", []() -> py::list {
+            py::list result{};
+            for (const auto* lock : verif::GetState().locks) {
+                result.append(py::make_tuple(lock->Site(), lock->Holders(), lock->Acquisitions()));
+            }
+            return result;
+        });
+        vmod.def("held_locks", []() -> py::list {
+            py::list result{};
+            for (const auto* lock : verif::GetState().locks) {
+                for (const auto& holder : lock->Holders()) {
+                    const auto pair = py::reinterpret_borrow<py::tuple>(holder);
+                    result.append(py::make_tuple(lock->Site(), pair[0], pair[1]));
+                }
+            }
+            return result;
+        });
+        vmod.def("set_type_cache_cap", [](const py::ssize_t& cap) -> py::ssize_t {
+            auto& state = verif::GetState();
+            const py::ssize_t old = state.type_cache_cap;
+            state.type_cache_cap = cap;
+            return old;
+        });
+        vmod.def("snapshots", []() -> py::dict {
+            py::dict result{};
+            for (const auto& [name, fn] : verif::GetState().snapshots) {
+                result[py::str(name)] = fn();
+            }
+            return result;
+        });
+        vmod.def("dict_order_namespaces", []() -> py::list {
+            py::list result{};
+            for (const auto& name : PyTreeSpec::sm_is_dict_insertion_ordered) {
+                result.append(py::str(name));
+            }
+            return result;
+        });
+        vmod.def("builtin_types", []() -> py::list {
+            py::list result{};
+            for (const auto& cls : PyTreeTypeRegistry::sm_builtins_types) {
+                result.append(py::reinterpret_borrow<py::object>(cls));
+            }
+            return result;
+        });
+        vmod.def("registry_snapshot", [](const bool& none_is_leaf) -> py::list {
+            // list of (namespace | None, type, kind, flatten_func, unflatten_func, path_entry_type)
+            PyTreeTypeRegistry* const registry =
+                (none_is_leaf ? PyTreeTypeRegistry::Singleton<NONE_IS_LEAF>()
+                              : PyTreeTypeRegistry::Singleton<NONE_IS_NODE>());
+            const auto render = [](const py::object& ns,
+                                   const PyTreeTypeRegistry::RegistrationPtr& reg) -> py::tuple {
+                const auto object_or_none = [](const py::object& obj) -> py::object {
+                    return obj ? obj : py::none();
+                };
+                return py::make_tuple(ns,
+                                      object_or_none(reg->type),
+                                      py::int_(static_cast<int>(reg->kind)),
+                                      object_or_none(reg->flatten_func),
+                                      object_or_none(reg->unflatten_func),
+                                      object_or_none(reg->path_entry_type));
+            };
+            py::list result{};
+            for (const auto& [cls, reg] : registry->m_registrations) {
+                result.append(render(py::none(), reg));
+            }
+            for (const auto& [key, reg] : registry->m_named_registrations) {
+                result.append(render(py::str(key.first), reg));
+            }
+            return result;
+        });
+    }
+#endif
+
     py::getattr(py::module_::import("atexit"),
                 "register")(py::cpp_function(&PyTreeTypeRegistry::Clear));
 }
